@@ -28,8 +28,8 @@ func envInt(name string, def int64) int64 {
 	return def
 }
 
-func seed() int64      { return envInt("VERIF_SEED", 1) }
-func thorough() bool   { return os.Getenv("VERIF_TIER") == "thorough" }
+func seed() int64        { return envInt("VERIF_SEED", 1) }
+func thorough() bool     { return os.Getenv("VERIF_TIER") == "thorough" }
 func newRNG() *rand.Rand { return rand.New(rand.NewSource(seed()*7919 + 17)) }
 
 // pick returns q in quick tier and t in thorough tier.
@@ -58,17 +58,17 @@ type Violation struct {
 
 type Result struct {
 	mu           sync.Mutex
-	Property     string           `json:"property"`
-	Evaluations  int              `json:"evaluations"`
-	Distinct     int              `json:"distinct_nontrivial"`
-	Rule         string           `json:"rule"`
-	Samples      []any            `json:"samples"`
-	Traces       int              `json:"traces_validated_against_impl"`
-	Agreements   int              `json:"model_agreements"`
-	Distribution map[string]int   `json:"distribution"`
-	Exhaustive   bool             `json:"exhaustive,omitempty"`
-	Disagree     []Disagreement   `json:"disagreements"`
-	Violations   []Violation      `json:"violations"`
+	Property     string         `json:"property"`
+	Evaluations  int            `json:"evaluations"`
+	Distinct     int            `json:"distinct_nontrivial"`
+	Rule         string         `json:"rule"`
+	Samples      []any          `json:"samples"`
+	Traces       int            `json:"traces_validated_against_impl"`
+	Agreements   int            `json:"model_agreements"`
+	Distribution map[string]int `json:"distribution"`
+	Exhaustive   bool           `json:"exhaustive,omitempty"`
+	Disagree     []Disagreement `json:"disagreements"`
+	Violations   []Violation    `json:"violations"`
 	seen         map[string]bool
 }
 
